@@ -560,8 +560,15 @@ package bus
 //@ ghostfield answertype int
 // (opt noplainrecv: Call may wait only in its select over reply / errors / cancel; a plain receive
 // would wait for one peer unconditionally and hang on a closed connection)
+// sendok: the call message of the current Call has been handed to the connection. From then on the
+// reply handler belongs to the dispatcher: it removes itself with the answer (or is closed with the
+// connection), and its slot may already serve another goroutine's call on the shared connection. Call
+// itself gives the handler back only when the message could not be sent.
+//@ ghostfield sendok bool counter
 //@ func (c *client) Call(cancel <-chan struct{}, serviceID uint32, objectID uint32, actionID uint32, payload []byte) (result []byte, err error)
-//@   tags C04 C11
+//@   tags C04 C11 C19
+//@   call Send#1: ghost_after c.sendok := result0 == nil
+//@   call RemoveHandler#1: assert[C04,C11,C19] !c.sendok && arg0 == id
 //@   opt recv_nonnil yes
 //@   opt noplainrecv yes
 // a call succeeds only with a message of type Reply (the filter does not look at the type: a Call,
@@ -570,7 +577,7 @@ package bus
 //@   ghost_at_return c.answertype := response.Header.Type
 //@   ensures[C04] err == nil ==> c.answertype == 2
 //@   requires c.endpoint != nil && !c.messageIDMutex.lockw
-//@   modifies everything
+//@   modifies everything, c.sendok
 //@   call Send#1: assert[C04,C11] c.endpoint.nhandlers == old(c.endpoint.nhandlers) + 1
 //@   ensures[C04] !c.messageIDMutex.lockw
 
